@@ -82,6 +82,7 @@ Inductive cmd :=
 | CAssignSub (x : N) (body : clist)          (* x=$(body)    (no command word) *)
 | CSubstArg (body : clist)                   (* : $(body)    (the substitution's status is ignored) *)
 | CAsync (a : andor)                         (* { a & }      (asynchronous and-or list) *)
+| CPrefixCall (x : N) (w : word) (nm : name) (args : list N)   (* x=w NAME ARGS *)
 | CCall (d : deco) (nm : name) (args : list N)
 | CBrace (body : clist)
 | CSubshell (body : clist)
@@ -213,6 +214,15 @@ Definition job_wait (args : list N) (s : state) : N * state :=
       | None => (127%N, s)
       end
   end.
+
+(* the end of a Volatile variable context (simple_command/builtin.rs,
+   function.rs: push_context(Context::Volatile)): the variable [x] is again
+   what it was in [old]; everything else stays as in [new] *)
+Definition restore_var (x : N) (old new : state) : state :=
+  mkState (filter (fun b => N.eqb (fst b) x) (vars old)
+           ++ filter (fun b => negb (N.eqb (fst b) x)) (vars new))
+          (ronly new) (funs new) (errexit new) (status new) (trace new) (exit_trap new)
+          (jobs new) (last_async new) (next_job new).
 
 Definition push_trace (k : N) (s : state) : state :=
   set_trace ((k, status s) :: trace s) s.
@@ -439,6 +449,23 @@ Fixpoint exec_cmd (n : nat) (stk : list frame) (c : cmd) (s : state) {struct n} 
       | Some child =>
           let s1 := set_status 0 (set_trace (trace child) s) in
           Some (apply_errexit stk s1, s1)
+      end
+  | CPrefixCall x w nm args =>
+      (* assign.rs perform_assignment: the value is expanded, then the variable
+         is assigned; Variable::assign fails for a read-only variable whatever
+         the new value is (also the value it already has); the error is handled
+         like an expansion error whatever the command is.  For a special
+         built-in the assignment persists (Scope::Global), otherwise it lives
+         in a Volatile context that ends with the command. *)
+      match expand_word w s with
+      | None => Some (handle_expansion_error stk s, s)
+      | Some fields =>
+          if is_ronly x s then Some (handle_expansion_error stk s, s)
+          else
+            match exec_cmd n stk (CCall plain nm args) (set_var x (hd_error fields) s) with
+            | None => None
+            | Some (r, s1) => Some (r, if is_special nm then s1 else restore_var x s s1)
+            end
       end
   | CAsync a =>
       (* item.rs execute_async: the and-or list runs in a subshell (apply_result,
